@@ -108,9 +108,10 @@ def catalogue(n, origin=0, rng=None):
     # text labels that are prefixes of / differ by blanks, quotes or case from each other (lists and NumPy string arrays)
     tricky = ['2000 Q1', '2000 Q2', 'x', 'xy', 'xyz', "q'1", 'Q"2', 'X', 'x y', 'Xy'][:n]
     tricky_absent = ['2000 Q1 ', '2000 Q', ' x', 'x ', 'xy\t', 'XY', 'xY', '2000 Q10', 'xyz\n']
-    out.append(SpanSpec('list[str] look-alikes', (lambda a=tricky: list(a)), [[x] for x in tricky], list(tricky_absent)))
-    out.append(SpanSpec('ndarray[str] look-alikes', (lambda a=tricky: np.array(a)), [[x] for x in tricky], list(tricky_absent)))
-    out.append(SpanSpec('pd.Index[str] look-alikes', (lambda a=tricky: pd.Index(a)), [[x] for x in tricky], list(tricky_absent)))
+    if len(tricky) == n:
+        out.append(SpanSpec('list[str] look-alikes', (lambda a=tricky: list(a)), [[x] for x in tricky], list(tricky_absent)))
+        out.append(SpanSpec('ndarray[str] look-alikes', (lambda a=tricky: np.array(a)), [[x] for x in tricky], list(tricky_absent)))
+        out.append(SpanSpec('pd.Index[str] look-alikes', (lambda a=tricky: pd.Index(a)), [[x] for x in tricky], list(tricky_absent)))
     # booleans (a two-period span), and a tuple whose labels are themselves tuples
     if n == 2:
         out.append(SpanSpec('list[bool]', (lambda: [False, True]), [[False], [True]], ['False', 2, None, (False,)]))
@@ -118,8 +119,9 @@ def catalogue(n, origin=0, rng=None):
     out.append(SpanSpec('tuple[tuple]', (lambda a=tt: tuple(a)), [[x] for x in tt], [(1999, 4), (2000,), 2000, '(2000, 1)']))
     # floats, and huge negative integers
     fl = [0.5, 1.5, -2.25, 3.5, 1e10, 7.0, 8.125, -0.75][:n]
-    out.append(SpanSpec('list[float]', (lambda a=fl: list(a)), [[x] for x in fl], [0.25, 7.000001, '0.5', 1e10 + 2048.0]))
-    out.append(SpanSpec('ndarray[float]', (lambda a=fl: np.array(a)), [[x] for x in fl], [0.25, 7.000001, 1e10 + 2048.0]))
+    if len(fl) == n:
+        out.append(SpanSpec('list[float]', (lambda a=fl: list(a)), [[x] for x in fl], [0.25, 7.000001, '0.5', 1e10 + 2048.0]))
+        out.append(SpanSpec('ndarray[float]', (lambda a=fl: np.array(a)), [[x] for x in fl], [0.25, 7.000001, 1e10 + 2048.0]))
     big = -10 ** 12 + origin
     out.append(SpanSpec('range(-10**12,..)', (lambda b=big, n=n: range(b, b + n)), [[x] for x in range(big, big + n)], [big - 1, big + n, -big]))
     # NumPy-scalar / standard-library spellings of the same labels (what iterating over an array or `index.values` yields)
